@@ -48,6 +48,7 @@ def budget(tier):
 def _cases(draw, tier):
     limit = draw(st.sampled_from([None, None, None, 5, 60, 0, 0.0, 2.5]))
     warmup = pct(draw) < 35
+    threads = draw(st.sampled_from([None, None, 1, 2, 4]))
     salt = draw(strategies.salts)
     shape = draw(st.sampled_from(['gen', 'gre', 'gen_then', 'mix', 'mix']))
     mode = 'cbc' if tier == 'thorough' and pct(draw) < 5 else 'eb'
@@ -69,7 +70,7 @@ def _cases(draw, tier):
                          draw(st.sampled_from(faults.POLICIES))] for _ in range(2)])
     return {'inst': inst, 'opts': opts, 'time_limit': limit, 'steps': steps, 'salt': salt,
             'choices': draw(strategies.choice_lists), 'doubles': doubles, 'mode': mode,
-            'warmup': warmup}
+            'warmup': warmup, 'threads': threads}
 
 
 def strategy(tier):
@@ -147,6 +148,7 @@ def run_case(case):
     inst, opts, T = case['inst'], case['opts'], case['time_limit']
     kw = dict(time_limit=T, mode=case.get('mode', 'eb'), choices=case['choices'],
               salt=case['salt'], steps_ms=case['steps'])
+    kw['threads'] = case.get('threads')
     wkw = dict(kw, warmup=bool(case.get('warmup')))
     try:
         base = faults.FaultRun(inst, opts, [], **kw).run()
@@ -159,7 +161,7 @@ def run_case(case):
     base_b = next((r for r in base.backend.records if r.status != 'Optimal'), None)
     labels = ['K=%d' % min(K, 8), 'limit' if T is not None else 'no_limit',
               'warmup_solve_on_same_object' if case.get('warmup') else 'fresh_object',
-              'limit=%r' % (T,),
+              'limit=%r' % (T,), 'threads=%r' % (case.get('threads'),),
               'mode=' + case.get('mode', 'eb')]
     nruns = 1
     masking = False
